@@ -86,8 +86,11 @@ def install_model(ex, R, reg, W, scen):
                 if o.ty in SCALAR:
                     V[n] = {'present': sor(e['present'], given), 'defaulted': site(take, False, e['defaulted']), 'value': site(take, W.val[kind][n], e['value']), 'opt': e['opt']}
                 else:
-                    # string / vector options are concrete per scenario: first explicit store wins
-                    if e['present'] is True and e['defaulted'] is False: continue
+                    # string / vector options are concrete per scenario: first explicit store wins - unless the option is registered as composing: boost then never
+                    # marks it final and a later source *adds* its values to the earlier ones
+                    if e['present'] is True and e['defaulted'] is False:
+                        if o.composing and given is True: V[n] = dict(e, value=e['value'] + b'+' + W.val[kind][n])
+                        continue
                     if given is True: V[n] = {'present': True, 'defaulted': False, 'value': W.val[kind][n], 'opt': (group, n)}
         for n, o in reg[group].items():          # second phase of store(): defaults of options not in the map yet
             if not o.has_default: continue
@@ -376,7 +379,8 @@ def job_parse(res, scen, strmode):
             else:
                 gotv = s.extra.get('vec', {}).get(o.store_to); ok = gotv == want
             res.obs.append(Ob('%s: effective value of "%s" (%s) is the one from %s' % (tag, n, o.ty, 'the command line' if incmd else ('the config file' if incfg else 'the default')), 'holds' if ok else 'violated', key='precedence-string',
-                              cex=None if ok else {'replay': 'parse', 'scen': scen, 'option': n, 'cmd': sum([['--' + x, STRVAL['cmd'].decode()] for x in [n] if incmd], []), 'cfg': ['%s=%s' % (n, STRVAL['cfg'].decode())] if incfg else []}))
+                              cex=None if ok else {'replay': 'parse', 'scen': scen, 'option': n, 'cmd': sum([['--' + x] + ([STRVAL['cmd'].decode()] if o.ty == 'str' else ['0.5', '0.25']) for x in [n] if incmd], []),
+                                                            'cfg': (['%s=%s' % (n, STRVAL['cfg'].decode())] if o.ty == 'str' else ['%s=0.125' % n, '%s=0.0625' % n]) if (scen == 'cfg' and W.given['cfg'].get(n) is True) else []}))
     # non-vacuity: the config-file value of an option is reachable as effective value
     s = run_paths_[0]
     if scen == 'cfg':
@@ -543,6 +547,10 @@ def replayer(bld):
                 if k in cfgv: want = cfgv[k]; src = 'config file (%s)' % k
         if nat['threw'] or nat['ret'] != 1: return (False, 'native parse() did not accept the scenario (ret %d, threw %d %s)' % (nat['ret'], nat['threw'], nat.get('what', '')))
         ty, bits = nat['var'][n]
+        if ty == 'vf32':
+            got = [struct.unpack('<f', struct.pack('<I', int(x, 16)))[0] for x in bits[1:].split(',') if x]
+            wantv = [0.5, 0.25] if n in cmdv or any(t == '--' + n for t in c['cmd']) else [0.125, 0.0625]
+            return (got != wantv, 'native effective value of %s is %s, the %s gives %s' % (n, got, 'command line' if wantv[0] == 0.5 else 'config file', wantv))
         if ty == 'str':
             got = bytes.fromhex(bits[1:]).decode();
             if want is None: return (False, 'string default case is not replayed')
